@@ -28,7 +28,7 @@ let () =
       let line = input_line stdin in
       if String.length line > 0 then begin
         let out =
-          try of_coq (Model.run_line6 (to_coq line))
+          try of_coq (Model.run_line7 (to_coq line))
           with Stack_overflow ->
             (match String.index_opt line ' ' with
              | Some i -> String.sub line 0 i ^ "\tdriver-stack-overflow"
